@@ -1,4 +1,5 @@
 import SwcVerif.Props.C16
+import SwcVerif.Props.C16Length
 #print axioms C16.cumdist_spec
 #print axioms C16.linspace_spec
 #print axioms C16.iso_step_le
@@ -12,3 +13,7 @@ import SwcVerif.Props.C16
 #print axioms C16.linearResample_columns
 #print axioms C16.smooth_endpoints_count
 #print axioms C16.assemble_keeps_interior
+#print axioms Polyline.plen_samples_le
+#print axioms C16.resample_length_le
+#print axioms C16.linearResample_length_le
+#print axioms C16.isoResample_length_le
